@@ -36,7 +36,19 @@ func init() {
 				delete2(st, "clock.sleep")
 			}
 			st.setAux("clock.fixed", t.Int64(base))
-			return one(st, &StructV{F: []Value{t.Int64(0), t.Int64(base + unixToInternal), loc}})
+			wall := int64(0)
+			if e.cfg.TickingClock {
+				// strictly increasing readings: one microsecond per call (wall holds the nanoseconds)
+				if tk, ok := st.aux["clock.tick"]; ok {
+					wall = tk.(*Term).SVal()
+				}
+				wall += 1000
+				if wall >= 1_000_000_000 {
+					panic(e.abort("ticking clock: more than 10^6 readings"))
+				}
+				st.setAux("clock.tick", t.Int64(wall))
+			}
+			return one(st, &StructV{F: []Value{t.Int64(wall), t.Int64(base + unixToInternal), loc}})
 		}
 		nsec30 := t.Fresh("now.nsec", 30)
 		nsec := t.ZExt(nsec30, 64)
